@@ -11,7 +11,7 @@ THOROUGH_S = 900
 TECHNIQUE = ('runtime monitoring: the click commands are invoked in-process (CliRunner) on generated command lines; exit code, '
              'log records and the keyword arguments received by a recording generator are compared with a small argv model')
 RULE = ('check: 1-4 model files (valid; syntax error; unknown reference at a known line/col) in random order with --grammar; '
-        'generate: 0-5 custom arguments (names with dashes / underscores / mixed, with values incl. quoted ones, bare flags at '
+        'generate: 0-5 custom arguments (names with dashes / underscores / mixed, with values incl. quoted ones and values that start with a single dash, bare flags at '
         'the end, before another option, between model files) x generators without declared parameters and with declared '
         '(mandatory / optional) parameters x 1-3 model files. Oracle: check exits 0 iff every file loads, else 1 and the '
         'logged error names the first failing file with its line:col; generate passes every custom argument under its name '
@@ -19,7 +19,8 @@ RULE = ('check: 1-4 model files (valid; syntax error; unknown reference at a kno
         'calls the generator once per model file otherwise. distinct = command line shape; non-trivial = a dashed name, a bare '
         'flag, a declared-parameter generator or a failing file present')
 REQUIRED = {'check_invocations': 300, 'check_failures_located': 100, 'generate_invocations': 500, 'bare_flags': 100,
-            'dashed_names': 200, 'declared_generators': 100, 'undeclared_rejected': 30, 'missing_mandatory_rejected': 30}
+            'dashed_names': 200, 'declared_generators': 100, 'undeclared_rejected': 30, 'missing_mandatory_rejected': 30,
+            'values_starting_with_dash': 50}
 
 GRAMMAR = '''
 Model: (defs+=Def | refs+=Ref)*;
@@ -169,7 +170,9 @@ def generate_case(ctx, r, tmp, gpath, rep):
             if r.random() < 0.4:
                 items.append(('flag', n))
             else:
-                v = r.choice(['red', '42', 'a b', 'x_y', '"quoted"', "'q'", 'path/to', 'v-w', '0'])
+                v = r.choice(['red', '42', 'a b', 'x_y', '"quoted"', "'q'", 'path/to', 'v-w', '0', '-4', '-O2', '-', '-x=1', '=', 'a=b'])
+                if v.startswith('-'):
+                    ctx.count('values_starting_with_dash')
                 items.append(('val', n, v))
         # argv: options and model files interleaved
         argv = ['generate', '--grammar', gpath, '--target', 'rec']
@@ -253,7 +256,7 @@ def classify(got, exp):
 
 
 def run(ctx):
-    for i in ctx.indices(1500 if ctx.tier == 'quick' else 50000, 'random'):
+    for i in ctx.indices(4500 if ctx.tier == 'quick' else 50000, 'random'):
         one(ctx, i)
 
 
